@@ -265,7 +265,9 @@ def kind(o):
 # ---------------------------------------------------------------------------------------------
 # proposal of the next operation from the state the model reports
 TEXTS = [b'a', b'b', b'ab', b'abc', b'b ', b' x y', b'zz', b'A', b'\xe9t\xe9', b'q' * 9, b'a,b;c', b"'a b' c", b'k1', b'k2', b'k3']
-URLS = [b'xq://u:pw@host:81/p/a?q=1', b'host', b'xq:host/path', b'//h?x', b'u@h', b':', b'xq://h:1', b'/only/path', b'?q']
+URLS = [b'xq://u:pw@host:81/p/a?q=1', b'host', b'xq:host/path', b'//h?x', b'u@h', b':', b'xq://h:1', b'/only/path', b'?q',
+        # every component present but empty (a component object is created, or not, for the empty text: both sides must agree, and whoever creates it owns it)
+        b'xq://u:@h/p', b'xq://:pw@h', b'xq://@h', b'xq://h:/p', b'xq://h/p?', b'xq://u:pw@:81', b':@', b'xq://:@:/?']
 # tokenizer sources in which a non-default quote / dquote / escape member decides the tokens
 TOKTEXTS = [b"x |y z| w", b'a#  b', b'a\\ b "c d"', b'\xe9a b\xe9 c', b"a,b c", b"|a 'b| c'", b'a##b # c', b'"a b" \'c d\'']
 # values for the three character members: off (0), the defaults, characters of TOKTEXTS / TEXTS, blank, high-bit bytes
@@ -613,6 +615,12 @@ def class_states():
           ('url-host', ['url ' + hx(b'host')]),
           ('url-edited', ['url ' + hx(b'xq://h/p'), 'str 7878', 'urlset 0 3 1']),
           ('url-unparsed', ['url ' + hx(b'xq://h:1/p'), 'unparse 0']),
+          ('url-empty-passwd', ['url ' + hx(b'xq://u:@h/p')]),
+          ('url-empty-user', ['url ' + hx(b'xq://:pw@h')]),
+          ('url-empty-userinfo', ['url ' + hx(b'xq://@h')]),
+          ('url-empty-port', ['url ' + hx(b'xq://h:/p')]),
+          ('url-empty-query', ['url ' + hx(b'xq://h/p?'), 'unparse 0']),
+          ('url-all-empty', ['url ' + hx(b'xq://:@:/?'), 'unparse 0', 'dup 0']),
           ('re-null', ['re N']),
           ('re-a', ['re 61']),
           ('re-flags', ['re 61', 'flags 0 69']),
